@@ -253,3 +253,46 @@ add("c10_raw_unknown_only", ["C10"], "wr.rs", "U", "write_raw under one unknown-
 # c10_flush_closes_empty_{root,inner} (public flush() closing an opened-but-empty known-size master) are NOT registered:
 # the seeded bug C10-s2 is found in ~4 min, but on the correct tree the proof runs out of memory (flush() loops over
 # end_tag, whose nine splice arms are unrolled per iteration) - a check that cannot pass is not a check.
+
+# ---------------------------------------------------------------- quick-tier budget (a quick check must finish a cold run in well under 900 s)
+# A harness tagged with several properties runs in the quick tier of a property only if it is in that property's keep-list
+# (when one is given); everywhere else it runs in thorough. Verdict soundness does not depend on this: it only bounds the
+# work a quick check does. Measured cold times are in DESIGN 12a.
+QUICK_KEEP = {
+ "C01": ["c01_size_width_%d" % i for i in range(1, 9)] + ["c15_roundtrip_default", "c01w_binary_len_126_128", "c09_id_bytes", "c09_end_tag_w0_c2", "c16w_uint_w0_c4",
+         "c16w_int_w0_c4", "c09_uint_w2_c4", "c09_binary_w1", "c16w_float", "c09_width_dispatch"],
+ "C02": ["c16_arr_to_u64", "c16_arr_to_i64", "c16_arr_to_f64", "c16w_float"] + ["c16w_uint_w0_c%d" % c for c in (1, 2, 4, 8)] + ["c16w_int_w0_c%d" % c for c in (1, 2, 4, 8)]
+        + ["c11_validate_p1_c1", "c11_validate_p2_c2", "c11_validate_p3_c3", "c11_vtree_root_a_uk", "c11_vtree_root_a_b_uuu", "doc_f4_f8"],
+ "C03": ["hdr_flat_full", "hdr_flat_trunc", "doc_u3_u1", "doc_i2_i0", "doc_f4_f8", "doc_s1_b3", "doc_b0_u8", "cut_u3_b2_at4", "cut_u3_b2_at5", "hdr_tree_first_l3", "hdr_tree_first_void"],
+ "C04": ["hdr_flat_trunc", "hdr_flat_full", "edr_refill_cap16_len16", "edr_first_fill_cap16_len8", "edr_refill_cap8_len16", "edr_first_fill_cap0_len1", "edr_refill_cap16_len5",
+         "edr_refill_cap16_len16_at_6_8", "edr_refill_cap8_len16_at_4_8", "chunk_u2_b1_1x7", "chunk_u2_b1_2_3_2", "chunk_u2_b1_cap0", "chunk_u2_b1_cap1", "chunk_u2_b1_pause",
+         "slice_u2_b1_cap0", "rn_eof_noclose_2"],
+ "C05": ["hdr_flat_full", "hdr_flat_trunc", "edr_refill_cap16_len16", "edr_first_fill_cap16_len8", "edr_refill_cap8_len16", "edr_first_fill_cap0_len1", "edr_source_error",
+         "c16_arr_to_i64", "c14_recover_at_end", "c14_recover_arbitrary_3", "doc_f3_u1", "doc_i2_i0", "slice_u2_b1_cap0", "cut_u3_b2_at2"],
+ "C09": ["c09_id_bytes", "c09_end_tag_w0_c2", "c09_end_tag_w1_c2", "c09_end_tag_w8_c2", "c09_uint_w2_c1", "c09_uint_w2_c2", "c09_uint_w2_c4", "c09_uint_w2_c8", "c09_int_w2_c2", "c09_int_w2_c4",
+         "c09_float_w3", "c09_binary_w0", "c09_binary_w1", "c09_binary_w4", "c09_binary_w8", "c09_utf8_w2", "c09_width_dispatch", "c09_unknown_size_equivalence",
+         "c09_flush_short_1", "c09_flush_short_3", "c09_flush_short_2_of_5", "c19_binary_width1_overflow", "c19_utf8_width1_len127"],
+ "C12": ["hdr_flat_trunc", "cut_u3_b2_at1", "cut_u3_b2_at2", "cut_u3_b2_at4", "cut_u3_b2_at5", "cut_u3_b2_at8"],
+ "C16": ["c16_arr_to_u64", "c16_arr_to_i64", "c16_arr_to_f64", "c16w_float"] + ["c16w_uint_w0_c%d" % c for c in (1, 2, 4, 8)] + ["c16w_int_w0_c%d" % c for c in (1, 2, 4, 8)]
+        + ["c09_uint_w2_c4", "doc_i2_i0", "doc_f4_f8"],
+}
+for _p, _keep in QUICK_KEEP.items():
+    for _h in HARNESSES:
+        if _p in _h["props"] and _h["tier"] == "quick" and _h["name"] not in _keep:
+            _h.setdefault("thorough_for", []).append(_p)
+    for _n in _keep:
+        assert _n in BY_NAME and _p in BY_NAME[_n]["props"] and BY_NAME[_n]["tier"] == "quick", (_p, _n)
+
+# realistic memory budgets for the gate (peak RSS measured in the build round, rounded up)
+for _h in HARNESSES:
+    n = _h["name"]
+    if n.startswith(("c15_", "c18_", "c01_size", "c16_arr", "c11_validate", "c11_vtree", "c07_", "c19_", "c10_", "c09_flush", "c09_binary", "c09_utf8", "c09_id", "c09_float", "c16w_float", "c09_unknown", "c01w_")):
+        _h["mem_gb"] = 4
+    elif n.startswith(("edr_", "hdr_contain", "rn_", "hdr_tree_first")):
+        _h["mem_gb"] = 5
+    elif n.startswith(("c16w_int", "c09_int", "c16w_uint", "c09_uint")):
+        _h["mem_gb"] = 10 if "int" in n and "uint" not in n else 6
+    elif n.startswith(("doc_", "cut_", "chunk", "slice_", "c09_end_tag", "c09_width", "c14_")):
+        _h["mem_gb"] = 8
+    elif n.startswith(("hdr_flat", "hdr_tree_chain", "hdr_tree_known")):
+        _h["mem_gb"] = 12
